@@ -272,6 +272,8 @@ fn decode(src: &mut Source) -> Case {
 // ---- per-thread interpreter state
 struct Th<'a> {
     recs: Vec<&'static LogRecorder>,
+    /// what is actually installed for recorder i (for i = 2 the wrapper whose first field is recorder 3: same address)
+    dyns: Vec<&'static (dyn metrics::Recorder + Sync)>,
     guards: Vec<Option<LocalRecorderGuard<'static>>>,
     guard_rec: Vec<Option<usize>>,
     // model (spec semantics; exact in clean mode)
@@ -287,6 +289,35 @@ struct Th<'a> {
 }
 
 struct PanicMarker;
+
+/// Two different recorders at one address: the wrapper (which records under `second`'s identity) and its
+/// first field. A `&dyn Recorder` is an address *and* a vtable; whoever identifies recorders by address alone
+/// confuses these two.
+#[repr(C)]
+struct Alias {
+    first: LogRecorder,
+    second: LogRecorder,
+}
+impl metrics::Recorder for Alias {
+    fn describe_counter(&self, k: metrics::KeyName, u: Option<Unit>, d: metrics::SharedString) {
+        self.second.describe_counter(k, u, d)
+    }
+    fn describe_gauge(&self, k: metrics::KeyName, u: Option<Unit>, d: metrics::SharedString) {
+        self.second.describe_gauge(k, u, d)
+    }
+    fn describe_histogram(&self, k: metrics::KeyName, u: Option<Unit>, d: metrics::SharedString) {
+        self.second.describe_histogram(k, u, d)
+    }
+    fn register_counter(&self, k: &metrics::Key, m: &metrics::Metadata<'_>) -> metrics::Counter {
+        self.second.register_counter(k, m)
+    }
+    fn register_gauge(&self, k: &metrics::Key, m: &metrics::Metadata<'_>) -> metrics::Gauge {
+        self.second.register_gauge(k, m)
+    }
+    fn register_histogram(&self, k: &metrics::Key, m: &metrics::Metadata<'_>) -> metrics::Histogram {
+        self.second.register_histogram(k, m)
+    }
+}
 
 fn exec(nodes: &[Node], th: &mut Th, clean: bool) {
     for n in nodes {
@@ -306,7 +337,7 @@ fn exec(nodes: &[Node], th: &mut Th, clean: bool) {
                 if th.ended[*rec] {
                     continue;
                 }
-                let r = th.recs[*rec];
+                let r = th.dyns[*rec];
                 th.stack.push((*rec, 100 + th.stack.len()));
                 th.installed_count[*rec] += 1;
                 th.depth += 1;
@@ -339,7 +370,7 @@ fn exec(nodes: &[Node], th: &mut Th, clean: bool) {
                 if th.ended[*rec] || th.guards[*slot].is_some() {
                     continue;
                 }
-                let g = metrics::set_default_local_recorder(th.recs[*rec]);
+                let g = metrics::set_default_local_recorder(th.dyns[*rec]);
                 th.guards[*slot] = Some(g);
                 th.guard_rec[*slot] = Some(*rec);
                 th.stack.push((*rec, *slot));
@@ -388,7 +419,16 @@ thread_local! {
 fn run_case(case: &Case, sched_bytes: &[u8], ctx: &mut Ctx, global_id: Option<u32>, global_log: Option<&crate::doubles::Log>) -> Result<(), Fail> {
     let log = new_log();
     // leaked doubles ('static so that the *borrow* can end while the memory stays valid)
-    let recs: Vec<Vec<&'static LogRecorder>> = (0..case.threads.len()).map(|t| (0..NREC).map(|i| &*Box::leak(Box::new(LogRecorder::new((t * 10 + i + 1) as u32, &log)))).collect()).collect();
+    let mut recs: Vec<Vec<&'static LogRecorder>> = vec![];
+    let mut dyns: Vec<Vec<&'static (dyn metrics::Recorder + Sync)>> = vec![];
+    for t in 0..case.threads.len() {
+        let id = |i: usize| (t * 10 + i + 1) as u32;
+        let plain: Vec<&'static LogRecorder> = (0..2).map(|i| &*Box::leak(Box::new(LogRecorder::new(id(i), &log)))).collect();
+        // recorders 2 and 3 live at one address (wrapper and first field)
+        let alias: &'static Alias = Box::leak(Box::new(Alias { first: LogRecorder::new(id(3), &log), second: LogRecorder::new(id(2), &log) }));
+        recs.push(vec![plain[0], plain[1], &alias.second, &alias.first]);
+        dyns.push(vec![plain[0], plain[1], alias, &alias.first]);
+    }
     let expects: Mutex<Vec<(std::thread::ThreadId, Expect, Option<u32>, bool)>> = Mutex::new(vec![]);
     let flags: Mutex<Vec<(usize, bool, Vec<bool>)>> = Mutex::new(vec![]);
     let nontrivial = std::sync::atomic::AtomicBool::new(false);
@@ -399,12 +439,13 @@ fn run_case(case: &Case, sched_bytes: &[u8], ctx: &mut Ctx, global_id: Option<u3
         .iter()
         .enumerate()
         .map(|(t, prog)| {
-            let (recs, expects, flags, nontrivial, owner) = (&recs, &expects, &flags, &nontrivial, &owner);
+            let (recs, dyns, expects, flags, nontrivial, owner) = (&recs, &dyns, &expects, &flags, &nontrivial, &owner);
             let clean = case.clean;
             Box::new(move || {
                 owner.lock().unwrap().push((std::thread::current().id(), t));
                 let mut th = Th {
                     recs: recs[t].clone(),
+                    dyns: dyns[t].clone(),
                     guards: (0..NSLOT).map(|_| None).collect(),
                     guard_rec: vec![None; NSLOT],
                     stack: vec![],
